@@ -191,7 +191,7 @@ PROPS = {
                 rule="hist: limiter-level histories (sibling limits, see C01/C02) against the exact-quotient bucket; rate: (count, period) boundary lattice, divisors and near-divisors of period*1e9, random points in and outside D; unit constructors at boundaries and random n in 1..2^32-1; non-trivial = point inside D"),
     "C09": dict(runs=[("server", "actor", dict(quick=300, thorough=6000)), ("server", "wire", dict(quick=40, thorough=600)), ("server", "binary", dict(quick=60, thorough=120))], proj=proj_server, tags=["C09"],
                 rule="actor: the real actor loop (unspawned, hook) and real RateLimiterHandle::throttle futures polled by a hand-rolled deterministic scheduler - exhaustive enumeration of schedules for small configurations, random schedules for larger; every trace replayed through the Lean LTS validator with the GCRA model as limiter; wire: one in-process server with HTTP + gRPC + RESP on loopback sockets sharing one actor, traces validated (loose enq order)"),
-    "C10": dict(modules=["C10", "C10Resp"], runs=[("server", "actor", dict(quick=300, thorough=6000)), ("server", "conn", dict(quick=60, thorough=500))], proj=proj_server, tags=["C10"],
+    "C10": dict(modules=["C10", "C10Resp"], runs=[("server", "actor", dict(quick=300, thorough=6000)), ("server", "conn", dict(quick=60, thorough=500)), ("server", "wire", dict(quick=40, thorough=400))], proj=proj_server, tags=["C10"],
                 rule="actor: schedules with queue capacity down to 1 and cancellation of pending requests at every poll boundary (before enqueue / after enqueue / after the reply was produced); conn: pipelined RESP streams over real TCP cut into random chunkings, PING tags identify reply order"),
     "C11": dict(runs=[("server", "actor", dict(quick=200, thorough=4000)), ("server", "wire", dict(quick=40, thorough=600)), ("server", "conn", dict(quick=60, thorough=500)), ("server", "binary", dict(quick=60, thorough=120))], proj=proj_server, tags=["C11"],
                 # a connection that stops answering well-formed commands after fragmented / malformed traffic is a C11 failure too
